@@ -1,4 +1,4 @@
-import GSProofs.Lemmas.RespLifePark
+import GSProofs.Lemmas.RespLifeMailbox
 import GS.Temporal
 import GS.Generated.MgrTx
 /-!
@@ -22,7 +22,7 @@ process is parked (`State.park`) and handles no mailbox message of ANY peer unti
   stream (known finding `manager-blocked-on-peer-reservation`).
 * `partial_never_parks` (C25.partial, safety core): if the manager only ever handles messages whose
   manager-side transactions carry no extension data (size 0), it never parks.
-* `partial_handled` (C25.partial, liveness): on every execution on which the manager is never parked
+* `partial_handled` (C25.partial, liveness): when all manager-side transactions have size 0, on every
   and which is weakly fair for the manager action, the manager keeps handling: whenever the mailbox is
   non-empty a message is eventually handled.  (Go scheduler fairness is an assumption, not modelled.)
 -/
@@ -244,6 +244,139 @@ theorem requestor :
     ∀ (s : State) (party : Party) (p : Peer) (id : Id) (ops : List TxOp),
       txSize s.extLen ops = 0 → (execTx s party p id ops).2 = true :=
   ⟨rfl, rfl, execTx_size0⟩
+
+-- ------------------------------------------------------------------ C25.partial, liveness half
+/-- environment inputs never make the manager run a transaction with extension data -/
+def noExtEnv : Action → Bool
+  | .recv p r => msgNoExt (.processRequests p r)
+  | .api c => msgNoExt (.api c)
+  | _ => true
+
+/-- the responder when all manager-side transactions have size 0 -/
+def sysNE : Sys State Action := ⟨fun s a => if noExtEnv a then step s a else none⟩
+
+/-- the manager is not parked, every queued message is free of manager-side extension data, and at
+    least `c` messages have been enqueued so far -/
+def Pending (c : Nat) (s : State) : Prop :=
+  s.park = none ∧ (∀ m ∈ s.mailbox, msgNoExt m = true) ∧ c ≤ s.handled + s.mailbox.length
+
+theorem pending_of_grow {c : Nat} {s s' : State} (h : Pending c s) (hg : MbGrow s s') (hp : s'.park = none) :
+    Pending c s' ∧ s'.handled = s.handled := by
+  obtain ⟨e, ex, hm, hn⟩ := hg
+  refine ⟨⟨hp, ?_, ?_⟩, e⟩
+  · intro m hmem
+    rw [hm] at hmem
+    rcases List.mem_append.1 hmem with h1 | h1
+    · exact h.2.1 m h1
+    · exact hn m h1
+  · rw [e, hm, List.length_append]
+    have := h.2.2
+    omega
+
+theorem mgrStep_unparked {s s' : State} (hp : s.park = none) (hs : step s .mgr = some s') :
+    ∃ m rest, s.mailbox = m :: rest ∧ s' = handle { s with mailbox := rest, handled := s.handled + 1 } m := by
+  simp only [step] at hs
+  unfold mgrStep at hs
+  split at hs
+  · rename_i pk hpk; rw [hp] at hpk; cases hpk
+  · split at hs
+    · cases hs
+    · rename_i m rest hm; cases hs; exact ⟨m, rest, hm, rfl⟩
+
+theorem neRule (c : Nat) :
+    VariantRule sysNE (fun a => a = Action.mgr) (Pending c) (fun s => c ≤ s.handled) (fun s => c - s.handled) := by
+  have mgrCase : ∀ s s', Pending c s → step s .mgr = some s' →
+      Pending c s' ∧ s'.handled = s.handled + 1 := by
+    intro s s' hP hs
+    obtain ⟨m, rest, hm, rfl⟩ := mgrStep_unparked hP.1 hs
+    · have hk := mbk_handle { s with mailbox := rest, handled := s.handled + 1 } m
+      have hmb : (handle { s with mailbox := rest, handled := s.handled + 1 } m).mailbox = rest :=
+        congrArg Prod.fst hk
+      have hh : (handle { s with mailbox := rest, handled := s.handled + 1 } m).handled = s.handled + 1 :=
+        congrArg Prod.snd hk
+      have hx : msgNoExt m = true := hP.2.1 m (by rw [hm]; exact List.mem_cons_self)
+      refine ⟨⟨park_handle_noext _ m hP.1 hx, ?_, ?_⟩, hh⟩
+      · intro m' hm'
+        rw [hmb] at hm'
+        exact hP.2.1 m' (by rw [hm]; exact List.mem_cons_of_mem _ hm')
+      · rw [hh, hmb]
+        have := hP.2.2
+        rw [hm, List.length_cons] at this
+        omega
+  have otherCase : ∀ s a s', Pending c s → a ≠ .mgr → noExtEnv a = true → step s a = some s' →
+      Pending c s' ∧ s'.handled = s.handled := by
+    intro s a s' hP ha hne hs
+    have hpk := park_other_step hs ha hP.1
+    have hg : MbGrow s s' := by
+      cases a with
+      | mgr => exact absurd rfl ha
+      | recv p r =>
+        simp only [step, Option.some.injEq] at hs; subst hs
+        exact mbg_trans (b := { s with seenIds := _ }) (mbg_of_eq rfl) (mbg_sendMsg _ _ hne)
+      | api cc =>
+        simp only [step, Option.some.injEq] at hs; subst hs
+        exact mbg_sendMsg _ _ hne
+      | pop p id => exact mbg_popTask hs
+      | reap p => exact mbg_reap hs
+      | wstep w pick => exact mbg_wstep hs
+      | extract p => exact mbg_extract hs
+      | net p ok => exact mbg_netResolve hs
+      | pub p => exact mbg_pubStep hs
+      | primer p =>
+        simp only [step, Option.some.injEq] at hs; subst hs
+        exact mbg_of_eq (by unfold primer; simp)
+      | thaw =>
+        simp only [step, Option.some.injEq] at hs; subst hs
+        exact mbg_of_eq rfl
+    exact pending_of_grow hP hg hpk
+  refine ⟨?_, ?_, ?_⟩
+  · intro s hP hnQ
+    refine ⟨.mgr, rfl, ?_⟩
+    have hlen : s.mailbox ≠ [] := by
+      intro he
+      have := hP.2.2
+      rw [he] at this
+      simp at this
+      exact hnQ this
+    cases hm : s.mailbox with
+    | nil => exact absurd hm hlen
+    | cons m rest => simp [Sys.enabled, sysNE, noExtEnv, step, mgrStep, hP.1, hm]
+  · intro s a s' hP _ hs
+    simp only [sysNE] at hs
+    split at hs
+    · rename_i hne
+      by_cases ha : a = .mgr
+      · subst ha
+        obtain ⟨h1, h2⟩ := mgrCase s s' hP hs
+        exact ⟨Or.inl h1, by rw [h2]; omega⟩
+      · obtain ⟨h1, h2⟩ := otherCase s a s' hP ha hne hs
+        exact ⟨Or.inl h1, by rw [h2]; exact Nat.le_refl _⟩
+    · cases hs
+  · intro s a s' hP hnQ ha hs
+    subst ha
+    simp only [sysNE, noExtEnv, if_true] at hs
+    obtain ⟨_, h2⟩ := mgrCase s s' hP hs
+    right
+    rw [h2]
+    omega
+
+/-- **C25.partial** (liveness half): when all manager-side transactions have size 0, on every
+    execution that is weakly fair for the manager, every message that is in the mailbox is eventually
+    handled: if at some point `c` messages have been enqueued in total (handled + waiting) then
+    eventually `c` messages have been handled — whatever any peer's network or memory allowance does.
+    (Weak fairness of the manager goroutine stands for the Go scheduler, which is not modelled.) -/
+theorem partial_handled (σ : Nat → State) (hex : Exec sysNE σ) (hwf : WFAll sysNE (fun a => a = Action.mgr) σ)
+    (c : Nat) : LeadsTo σ (Pending c) (fun s => c ≤ s.handled) :=
+  leadsTo_of_variant (neRule c) hex hwf
+
+/-- non-vacuity of `partial_handled`: the hypothesis `Pending` holds in a non-trivial reachable state
+    (two requests waiting in the mailbox) -/
+example : Pending 2 (run (init 100) [.recv 0 (.new 0 (cfgA 3)), .recv 1 (.new 1 (cfgA 2))]) := by
+  refine ⟨rfl, ?_, by decide⟩
+  intro m hm
+  have : m ∈ [Msg.processRequests 0 (.new 0 (cfgA 3)), Msg.processRequests 1 (.new 1 (cfgA 2))] := hm
+  simp only [List.mem_cons, List.mem_nil_iff, or_false] at this
+  rcases this with h | h <;> subst h <;> rfl
 
 /-- non-vacuity of `partial_never_parks`: a non-trivial state reachable under its hypothesis (a request
     without hook data is registered and queued) -/
